@@ -64,6 +64,7 @@ type Contract struct {
 	Allocates bool
 	Each      []string // lemma parameters ranging over all declared constants of their type
 	UseBody   []string // callees whose bodies are executed in this unit instead of their contracts
+	TrustCalls []string // function-valued parameters/fields whose calls are assumed not to touch the state under contract
 	AbstractRem bool   // the % operator is uninterpreted in this unit (reasoned about through `uses` lemmas)
 	Partitions [][]Clause // proof hint: postconditions are proved separately in every cell of each partition (conditions over the entry state)
 	Preserves []Clause // locations inside the modifies set that are nevertheless unchanged
@@ -433,7 +434,7 @@ func stripSpecPrefix(line string) (string, bool) {
 
 var clauseKeywords = map[string]bool{"requires": true, "ensures": true, "modifies": true, "loop": true, "inline": true,
 	"opaque": true, "trusted": true, "abstract": true, "func": true, "lemma": true, "pure": true, "assert": true,
-	"bounded": true, "ghost": true, "noframe": true, "allocates": true, "each": true, "usebody": true, "uses": true, "hide": true, "preserves": true, "cases": true, "abstractrem": true}
+	"bounded": true, "ghost": true, "noframe": true, "allocates": true, "each": true, "usebody": true, "uses": true, "hide": true, "preserves": true, "cases": true, "abstractrem": true, "trustcall": true}
 
 // ParseContracts scans a Go source file for //@ blocks.
 func ParseContracts(fset *token.FileSet, filename string, src []byte, cs *ContractSet) error {
@@ -553,6 +554,8 @@ func ParseContracts(fset *token.FileSet, filename string, src []byte, cs *Contra
 				cur.NoFrame = true
 			case "each":
 				cur.Each = append(cur.Each, strings.Fields(strings.ReplaceAll(rest, ",", " "))...)
+			case "trustcall":
+				cur.TrustCalls = append(cur.TrustCalls, strings.Fields(strings.ReplaceAll(rest, ",", " "))...)
 			case "abstractrem":
 				cur.AbstractRem = true
 			case "cases":
